@@ -577,29 +577,48 @@ func reachesChan(t types.Type, seen map[types.Type]bool) bool {
 func (f *frame) havocOutside(st *State, c *ssa.CallCommon, args []T, all bool) {
 	e := f.e
 	privToo := all
+	unknownPriv := all        // something of unknown shape was handed over (closure, function value, unknown boxing)
+	var handed []types.Type   // known types through which objects of the root's package were handed over
 	if c != nil {
 		vals := append([]ssa.Value{}, c.Args...)
 		if !c.IsInvoke() {
 			vals = append(vals, c.Value)
 		}
-		for _, a := range vals {
+		for ai, a := range vals {
 			if a == nil {
 				continue
 			}
 			t := a.Type()
 			if mi, ok := a.(*ssa.MakeInterface); ok {
 				t = mi.X.Type()
+			} else if _, isI := t.Underlying().(*types.Interface); isI && ai < len(args) {
+				// an interface-typed argument (e.g. the parameter of an inlined helper that forwards it): its dynamic
+				// type is visible when the value is a known boxing (mk_iface <type id> <ref>); otherwise, for the empty
+				// interface, anything may be inside -- also an object of the root's package (handed over: it may change)
+				if m := mkIfaceRe.FindStringSubmatch(args[ai].S); m != nil {
+					var id int
+					fmt.Sscanf(m[1], "%d", &id)
+					if dt, ok := e.knownTypes()[id]; ok {
+						t = dt
+					}
+				} else if t.Underlying().(*types.Interface).NumMethods() == 0 {
+					privToo = true
+					unknownPriv = true
+				}
 			}
 			if _, ok := a.(*ssa.MakeClosure); ok {
 				privToo = true
+				unknownPriv = true
 			}
 			if _, ok := t.Underlying().(*types.Signature); ok {
 				if _, isFn := a.(*ssa.Function); !isFn {
 					privToo = true
+					unknownPriv = true
 				}
 			}
 			if f.reachesPriv(t, map[types.Type]bool{}) {
 				privToo = true
+				handed = append(handed, t)
 			}
 			// addresses of fields handed to the callee
 			if ad, ok := f.addrs[a]; ok {
@@ -627,7 +646,31 @@ func (f *frame) havocOutside(st *State, c *ssa.CallCommon, args []T, all bool) {
 	e.preserving = false
 	e.havocChans = false
 	if privToo {
-		e.havocClass(st, 1)
+		if unknownPriv {
+			e.havocClass(st, 1)
+		} else {
+			// only objects reachable from what was handed over can change: field heaps of the struct types the handed
+			// types reach (type-based; the rest of the package's state keeps its contents)
+			keys := map[string]bool{}
+			for _, t := range handed {
+				f.collectStructKeys(t, keys, map[types.Type]bool{})
+			}
+			var names []string
+			for n := range e.heapSort {
+				if e.class(n) == 1 && strings.HasPrefix(n, "H_") {
+					names = append(names, n)
+				}
+			}
+			sort.Strings(names)
+			for _, n := range names {
+				for k := range keys {
+					if strings.HasPrefix(n, "H_"+k+"_") {
+						e.havoc(st, n)
+						break
+					}
+				}
+			}
+		}
 	}
 	// allocation watermark only grows; EXCL is thread-local ghost state
 	e.assume(implies(st.cond, "(>= "+e.H(st, "W", "Int")+" "+e.H(old, "W", "Int")+")"))
@@ -1089,6 +1132,8 @@ func (e *Enc) modAllows(ct *Contract, name string) bool {
 	return false
 }
 
+var mkIfaceRe = regexp.MustCompile(`^\(mk_iface (\d+) `)
+
 var mkSliceRe = regexp.MustCompile(`^\(mk_slice (a!\d+) `)
 
 // sarrOf simplifies (sarr (mk_slice a ...)) to a.
@@ -1178,6 +1223,56 @@ func (f *frame) havocPattern(st *State, pat string, ct *Contract, env *specEnv) 
 	}
 	if strings.HasPrefix(pat, "heap:") {
 		e.havoc(st, strings.TrimPrefix(pat, "heap:"))
+		return
+	}
+	if strings.HasPrefix(pat, "reach(") && strings.HasSuffix(pat, ")") {
+		// everything reachable from the (dynamic) type of an argument: field heaps of the struct types it reaches, the
+		// element heaps, the map heaps and the ghost values of numbers/group elements (a decoder fills what its target
+		// reaches and nothing else)
+		pn := pat[6 : len(pat)-1]
+		v, ok := env.vars[pn]
+		if !ok {
+			e.note("modifies: unknown parameter in " + pat)
+			return
+		}
+		t := v.Go
+		if m := mkIfaceRe.FindStringSubmatch(v.S); m != nil {
+			var id int
+			fmt.Sscanf(m[1], "%d", &id)
+			if dt, ok := e.knownTypes()[id]; ok {
+				t = dt
+			}
+		} else if _, isI := t.Underlying().(*types.Interface); isI {
+			// unknown dynamic type: everything may change
+			e.havocChans = true
+			e.havocClass(st, 0)
+			e.havocChans = false
+			e.havocClass(st, 1)
+			return
+		}
+		keys := map[string]bool{}
+		f.collectStructKeys(t, keys, map[types.Type]bool{})
+		var names []string
+		for n := range e.heapSort {
+			names = append(names, n)
+		}
+		sort.Strings(names)
+		for _, n := range names {
+			switch {
+			case strings.HasPrefix(n, "E_"), strings.HasPrefix(n, "MD_"), strings.HasPrefix(n, "MV_"), strings.HasPrefix(n, "P_"):
+				e.havoc(st, n)
+			case n == "GV_natval" || n == "GV_ptval" || n == "GV_scval" || n == "GV_ctval":
+				e.havoc(st, n)
+			case strings.HasPrefix(n, "H_"):
+				for k := range keys {
+					if strings.HasPrefix(n, "H_"+k+"_") {
+						e.havoc(st, n)
+						break
+					}
+				}
+			}
+		}
+		f.bumpW(st)
 		return
 	}
 	for _, g := range []string{"ptval", "scval", "natval", "ctval", "wlog", "hstate"} {
@@ -1622,4 +1717,30 @@ func reachesIface(t types.Type, seen map[types.Type]bool) bool {
 		}
 	}
 	return false
+}
+
+// collectStructKeys: the heap keys of all struct types reachable from t.
+func (f *frame) collectStructKeys(t types.Type, out map[string]bool, seen map[types.Type]bool) {
+	if seen[t] {
+		return
+	}
+	seen[t] = true
+	switch u := t.Underlying().(type) {
+	case *types.Pointer:
+		f.collectStructKeys(u.Elem(), out, seen)
+	case *types.Slice:
+		f.collectStructKeys(u.Elem(), out, seen)
+	case *types.Array:
+		f.collectStructKeys(u.Elem(), out, seen)
+	case *types.Map:
+		f.collectStructKeys(u.Key(), out, seen)
+		f.collectStructKeys(u.Elem(), out, seen)
+	case *types.Chan:
+		f.collectStructKeys(u.Elem(), out, seen)
+	case *types.Struct:
+		out[f.e.structKey(t)] = true
+		for i := 0; i < u.NumFields(); i++ {
+			f.collectStructKeys(u.Field(i).Type(), out, seen)
+		}
+	}
 }
